@@ -22,6 +22,12 @@ QualityReportInterval == 200
 FrameWindowSize     == 30
 NoMagic             == <<>>
 
+\* TRUE: the repaired behaviour (repo commit "fix: acknowledge input packets whose delta base is
+\* no longer held"): a packet whose delta base was pruned is answered with an InputAck.  FALSE is
+\* the pinned behaviour (packet ignored without reply); MC_Link keeps a regression run with FALSE
+\* that must exhibit the wedge (definition override in the cfg).
+AckUndecodable == TRUE
+
 Stat0 == [disc |-> FALSE, last |-> NullFrame]
 
 \* truncation toward zero, as Rust's integer division / `as i32`
@@ -191,7 +197,8 @@ EP_OnInput(e, m, now) ==
                          [disc |-> m.status[h+1].disc \/ e1.peer_status[h].disc,
                           last |-> Max2(e1.peer_status[h].last, m.status[h+1].last)]]]
         decode_frame == IF EP_LastRecvFrame(e2) = NullFrame THEN NullFrame ELSE m.start - 1
-    IN IF decode_frame \notin DOMAIN e2.recv THEN e2
+    IN IF decode_frame \notin DOMAIN e2.recv
+       THEN (IF AckUndecodable THEN EP_SendInputAck(e2, now) ELSE e2)
        ELSE LET e3 == [e2 EXCEPT !.t_input_recv = now]
             IN IF ~m.ok THEN e3                               \* decode error: packet dropped
                ELSE LET e4 == EP_TakeFrames([e3 EXCEPT !.abort = FALSE], m.start, m.frames, 1)
@@ -200,6 +207,7 @@ EP_OnInput(e, m, now) ==
                                 lr == EP_LastRecvFrame(e5)
                             IN [e5 EXCEPT !.recv = [x \in {y \in DOMAIN e5.recv : y >= lr - 2 * e5.W} |-> e5.recv[x]]]
 
+\* (AckUndecodable: see below)
 EP_OnInputAck(e, m) == EP_PopPending(e, m.ack)
 
 EP_OnQualityReport(e, m, now) ==
